@@ -1,6 +1,6 @@
 """C03 — every supported signature expands to compiling code with the same call type (bounded)."""
 from ..common import Report
-from ..corpus import load
+from ..corpus import load, load_repo_tests
 from ..model import subst, ty_s
 from ..wrules import FnModView, ImplBlockView, trait_methods, impl_methods, last_seg, check_fnmod_predicates, is_mock_impl
 
@@ -53,8 +53,10 @@ def run(tier):
     rep = Report("C03", tier, "translation_validation")
     configs = ["plain", "unimock_test"] if tier == "quick" else ["plain", "test", "unimock", "unimock_test"]
     programs = 0
-    for cfg in configs:
-        ld = load(rep, "pos", cfg)
+    loaded = [(cfg, load(rep, "pos", cfg)) for cfg in configs]
+    if tier == "thorough":
+        loaded.append(("unimock_test", load_repo_tests(rep)))
+    for cfg, ld in loaded:
         crate = ld.crate
         for exp in crate.expansions:
             if exp.mode not in ("fn", "mod"):
